@@ -49,6 +49,8 @@ package masswallet
 //@   props C19 C01
 //@   requires h != nil && wmWF(h.walletMgr) && h.mempool != nil && txWF(tx)
 //@   requires blockMeta != nil ==> recInCurBlk != nil
+// a mined transaction is filtered inside the write transaction that connects its block
+//@   requires blockMeta != nil ==> dbtx != nil
 //@   requires recsWF(recInCurBlk)
 //@   modifies recInCurBlk, h.mempool, rollbacks(), gmap("iterkey")
 //@   expand db.View
@@ -62,6 +64,9 @@ package masswallet
 //@   at "rec.HasBindingIn = ps.IsBinding()" assert[C19] has(readyWallets, ma.Account())
 //@   at "rec.HasBindingOut = ps.IsBinding()" assert[C19] has(readyWallets, ma.Account())
 //@   at "continue"#1 assert[C01] !has(recInCurBlk, strOf(txIn.PreviousOutPoint.Hash[:]))
+// ... and only on the answer of the connecting transaction's own view of the ledger (which includes the credits of
+// blocks connected earlier in the same transaction), never of a separate read-only view of the committed data
+//@   at "if !exist { continue }" assert[C01] exist == ghostb("creditFromTx", dbtx, strOf(txIn.PreviousOutPoint.Hash[:]))
 //@   loop#1 invariant recsWF(recInCurBlk)
 //@   loop#1 invariant cacheWF(cache)
 //@   loop#1 invariant rec != nil && fresh(rec) && sameSlice(rec.MsgTx.TxOut, tx.TxOut) && fresh(rec.RelevantTxIn) && fresh(rec.RelevantTxOut)
